@@ -110,7 +110,7 @@ def param_cache_replay(ctx):
 
     res = ctx.tlc_must_hold("ParamCache", "ParamCache_none.cfg", what="ReadIsCurrent / FlagSound", workers=4)
     ctx.tlc_must_fail("ParamCache", "ParamCache_skip_equal.cfg", expect="FlagSound")
-    seqs = [o["ops"] for o in res.prints.get("OPS", [])]
+    seqs = sorted(o["ops"] for o in res.prints.get("OPS", []))  # TLC prints in worker order: sort for a reproducible selection
     E = Models.Elastic
     Ne = 4
     makers = {
@@ -135,10 +135,10 @@ def param_cache_replay(ctx):
                         setattr(mat, names[cls], cur)
                     elif op == "MutateAndReassign":
                         if field:
-                            cur[: Ne // 2] *= 0.5                                  # the same array, modified in place ...
+                            cur[: Ne // 2] *= 0.8                                  # the same array, modified in place ... (factors keep the moduli admissible over five operations)
                             setattr(mat, names[cls], cur)                          # ... and assigned again
                         else:
-                            cur = cur * 0.5
+                            cur = cur * 0.8
                             setattr(mat, names[cls], cur)
                     else:
                         C = np.asarray(mat.C, dtype=float)
